@@ -5,7 +5,7 @@
    the relativization choices). *)
 From DV Require Import Base.Prelude Model.NameM Model.TokM Model.RdTextM.
 From DV Require Import Proofs.NameValid Proofs.NameText Proofs.TokEsc Proofs.TokTxt Proofs.TokWords
-     Proofs.TokDec Proofs.TokHex Proofs.TokShape Proofs.TokGeneric Proofs.TokUtf8 Proofs.RdTextName.
+     Proofs.TokDec Proofs.TokHex Proofs.TokShape Proofs.TokGeneric Proofs.TokUtf8 Proofs.RdTextName Proofs.RdTextAddr.
 Open Scope Z_scope.
 
 Definition is_rest (f : tfield) : bool :=
@@ -30,6 +30,7 @@ Definition val_ok (f : tfield) (v : tval) : Prop :=
   | FHexRest, VBytes b => all_bytes b = true /\ b <> []
   | FB64Rest _, VBytes b => all_bytes b = true /\ b <> []
   | FTxtRest, VStrs l => l <> [] /\ Forall (fun s => all_bytes s = true /\ zlen s <= 255) l
+  | FAddr v6, VBytes b => all_bytes b = true /\ length b = (if v6 then 16 else 4)%nat
   | _, _ => False
   end.
 
@@ -135,7 +136,7 @@ Lemma field_ok sty c f v ftext v' R q bl :
         (is_rest f = true -> exists te, ungot st_end = Some te /\ is_eol_or_eof te = true).
 Proof.
   intros (Hhs & Hbs & HO) Hv Hp He Hbl HR1 HR2.
-  destruct f as [maxv| |tokmax ctormax ne| | |sc|]; destruct v as [z|b|n|l]; cbn [val_ok] in Hv; try contradiction;
+  destruct f as [maxv| |tokmax ctormax ne| | |sc| |v6]; destruct v as [z|b|n|l]; cbn [val_ok] in Hv; try contradiction;
     cbn [print_field] in Hp; cbn [expect] in He; cbn [is_rest] in HR1, HR2.
   - (* FDec *)
     inversion Hp; subst ftext. inversion He; subst v'. specialize (HR1 eq_refl).
@@ -240,6 +241,23 @@ Proof.
     cbn [orb]. rewrite E2. cbn [bind rev app fst snd].
     rewrite (txt_strings_ok_b _ (s :: ss) (_ :: toks) HB HL); [|constructor; [split; reflexivity|exact HF]].
     reflexivity.
+  - (* FAddr *)
+    destruct Hv as (Hb & Hl). inversion He; subst v'. specialize (HR1 eq_refl).
+    assert (Hrt : (if v6 then ipv6_aton ftext else ipv4_aton ftext) = Ok b /\ forallb safe ftext = true /\ ftext <> []).
+    { destruct v6.
+      - destruct (ipv6_roundtrip b Hb Hl) as (t & E1 & E2). rewrite E1 in Hp. inversion Hp; subst t.
+        split; [exact E2|]. apply (ipv6_ntoa_word b ftext Hb E1).
+      - destruct (ipv4_roundtrip b Hb Hl) as (t & E1 & E2). rewrite E1 in Hp. inversion Hp; subst t.
+        split; [exact E2|]. apply (ipv4_ntoa_word b ftext Hb E1). }
+    destruct Hrt as (Hat & Hs & Hne).
+    exists (mkTok tIDENT ftext (has_bs ftext) None), (stq false R).
+    split; [apply get0_word_q; auto using units_safe|]. split; [reflexivity|]. split.
+    { unfold tok_plain, is_identifier. cbn [ttype tvalue]. rewrite safe_word_not_hash by exact Hs. repeat split; reflexivity. }
+    split; [apply stq_len_word|].
+    intros stX HX _. exists (stq false R). split; [|split; [intros _; exists false; reflexivity|discriminate]].
+    cbn [parse_field]. unfold get_identifier, get_unescaped. rewrite HX. cbn [bind fst snd]. unfold unescape. cbn [tesc].
+    rewrite has_bs_safe by exact Hs. cbn [negb bind fst snd]. unfold as_identifier, is_identifier. cbn [ttype tvalue].
+    change (tIDENT =? tIDENT) with true. cbn [negb bind fst snd]. rewrite Hat. reflexivity.
 Qed.
 
 (* ---------- the whole field list ---------- *)
